@@ -227,5 +227,39 @@ CLAIMS = {
   'technique': 'Coq: executable model of regress-html.c over the C01 step-file and C13 regress-log models, comprehension spec + boolean oracle, uniqueness of strictly sorted permutations for the column walk; '
                'translator t_html.py; process-level correspondence + extracted spec oracle on the parsed matrix; in-process leaf harness; ASan build',
  },
+
+ 'C05': {
+  'text': 'Coq theorems (closed under the global context) over the model of report.c for every mode, row list and file-system view: status/subject say ok iff no non-skipped row failed, '
+          'otherwise the count (regress, canvas) or the failing step (sequential modes); sections are exactly the listed rows in order with name, '
+          '(int)exit and log name, failing rows always, skipped rows never; the body is the lines from the tenth-last non-empty line on (cvs logs, '
+          'packages.diff, extracted regress blocks of C13, whole log for canvas) - in full for the code as it is now (C05_body_current; D14 repaired in 91740ae); '
+          'no report iff the stated read errors; no NUL/CR byte is printed.',
+  'note': 'Status theorem under explicit hypotheses (skipped rows carry exit 0; sequential modes: only the last non-skipped row may fail) with refutation '
+          'witnesses outside them - that the sequential orchestrator only writes such files is C03_orchestrator_files_are_good. Observed only: model = robsd-report byte for byte on generated build '
+          'directories (450 quick / 12k thorough). Assumed: libc printf/qsort/fnmatch, kernel file I/O, lock file names the given directory, config loader.',
+  'technique': 'Coq model (two layers: report_struct, render) + independent spec + extracted oracles; translator t_report.py for thresholds, names, '
+               'comparison operators, sanitize table and the excerpt variant; process-level byte-exact correspondence in five modes',
+ },
+ 'C12': {
+  'text': 'PARTIAL. Proved (Coq, closed under the global context) about the models, for all inputs: the parsers are total functions (structural recursion; the one fuelled loop of the step parser '
+          'never runs out of fuel); the input cursor of lexer.c stays inside its buffer for every sequence of getc/ungetc calls (guards read from the source by a translator); every helper model '
+          '(robsd-step -R/-W, robsd-regress-log, interpolation through robsd-config -) exits with a documented status and prints nothing on standard output when it rejects. '
+          'OBSERVED only: absence of memory errors / undefined behaviour / hangs in the C code - a clang ASan+UBSan build of every helper fed with grammar-derived inputs of all five configuration grammars, '
+          'step files, regress logs, templates and report build directories, their byte-level mutations (NUL, quotes, braces, $, 70 kB tokens, huge integers, truncation) and raw bytes, 5 s limit each, '
+          'compared with the C01/C13/C09 models on inputs up to 3 kB.',
+  'note': 'Memory safety of C cannot be proved with the installed tools (no VST/CompCert); the sanitizer lanes are exploration bounded by the generator (2.5k executions quick, 60k thorough). '
+          'The configuration parser is judged here only by the exit-status/diagnostic oracle (C08 compares it with its model). fuzz-config/fuzz-step targets of the repository are not run.',
+  'technique': 'Coq proofs of totality/fuel sufficiency, cursor bounds and exit-status/fail-closed facts about the models + translator for the lexer guards + sanitizer-instrumented differential exploration',
+ },
+ 'C18': {
+  'text': 'Coq theorems (closed under the global context): total = end row\'s duration else sum over non-skipped non-end rows (regress: last time - first time); HH:MM:SS exact for 0..2^40 with %02d '
+          'padding; delta suffix iff |delta| > threshold (60 s total, 0 per step) with the right sign; a Size: line iff the file is visible, not CHANGELOG/numbered '
+          'diff, present in this and the previous (greatest other) invocation and changed by >= 1 MiB (1 KiB bsd.rd); size text = correctly rounded tenth, ties to '
+          'even, unit by magnitude; util.sh duration_total / regress_duration_total equal steps_total_duration. Thresholds and the comparison operators at them are regenerated from report.c.',
+  'note': 'format_size is exact for sizes < 2^53 (double conversion) assuming glibc prints the correctly rounded decimal; sums assumed not to overflow int64 '
+          '(C18_total_fits gives the bound). Observed only: Duration:/Size: lines byte for byte, and the shell totals run from the working tree under bash '
+          '(bash for ksh) on a sample. Durations outside 0..2^40 (in-flight -1) are compared with the model but not judged.',
+  'technique': 'same model/extraction/fixtures as C05; thresholds and comparison operators regenerated so that changing them breaks a proof; byte-exact correspondence + extracted oracles',
+ },
 }
 NOT_APPLICABLE = {p: PENDING for p in ['C%02d' % i for i in range(1, 21)] if p not in CLAIMS}
